@@ -503,11 +503,37 @@ Proof.
                  | a h IHa IHh | q IHq | s x i u IHs IHi IHu | s x i u e IHs IHi IHu IHe | l b IHb | l
                  | s x b IHs IHb | x | f | o a b ] using query_ind';
     intros ce pc nv cq nv' Hc; simpl in Hc; dcomp; try (inversion Hc; subst; clear Hc; jin; fail).
-  - (* if *) destruct (is_const1 l0), (is_const1 l1); inversion Hc; subst; clear Hc; destruct l; simpl; jin.
+  - (* if *) destruct (is_const1 l0), (is_const1 l1); inversion Hc; subst; clear Hc;
+      (destruct l as [|i0 l']; [simpl|cbv iota; remember (i0 :: l') as cc; cbn [tl]]); jin.
   - (* try *) destruct h as [h|]; simpl in *; dcomp; inversion Hc; subst; clear Hc; jin.
   - (* array *) destruct (array_fold q); inversion Hc; subst; clear Hc; jin.
   - (* foreach *) destruct e as [e|]; simpl in *; dcomp; inversion Hc; subst; clear Hc; jin.
-  - (* bind *) destruct l; inversion Hc; subst; clear Hc; simpl; jin.
+  - (* bind *) (destruct l as [|i0 l']; [simpl in Hc|cbv iota in Hc; remember (i0 :: l') as cc]); dcomp; inversion Hc; subst; clear Hc; jin.
   - (* binop *) destruct (comp_sarg (V nv) b) eqn:Eb; [|discriminate]. destruct (comp_sarg (V nv) a) eqn:Ea; [|discriminate].
     inversion Hc; subst; clear Hc. jin; eapply comp_sarg_jin; eauto.
+Qed.
+
+From Verif Require Import c01vm.Den c01vm.Correct.
+
+(* compile_correct for the code the compiler finally emits (after optimizeCodeOps) *)
+Theorem compile_correct : forall (nt : natives) (q : query) (code : list instr), compile q = Some code ->
+  forall v, exists fuel, run_is (den nt q [] v) (run nt code fuel (init v)).
+Proof.
+  intros nt q code Hc v. unfold compile in Hc.
+  destruct (compile_raw q) as [c|] eqn:Er; [|discriminate]. inversion Hc; subst code. clear Hc.
+  destruct (compile_raw_correct nt q c Er v) as (f & Hf).
+  pose proof Er as Er'. unfold compile_raw in Er'. destruct (comp q ce_empty 1 0) as [[cq nv]|] eqn:Ec; [|discriminate].
+  inversion Er'; subst c. clear Er'.
+  set (c := Iscope mainscope nv 0 :: cq ++ [Iret]) in *.
+  assert (Hjin : forall p j, nth_error c p = Some (Ijumpifnot j) -> j <> S p).
+  { intros p j Hp. destruct p as [|p]; [discriminate|]. unfold c in Hp. simpl in Hp.
+    destruct (Nat.lt_ge_cases p (length cq)).
+    - rewrite nth_error_app1 in Hp by auto. pose proof (comp_jin _ _ _ _ _ _ Ec p j Hp). lia.
+    - rewrite nth_error_app2 in Hp by auto. destruct (p - length cq) as [|[|]]; discriminate. }
+  assert (Hlast : nth_error c (length c - 1) = Some Iret).
+  { unfold c. simpl. rewrite app_length. simpl. replace (length cq + 1 - 0) with (S (length cq)) by lia.
+    simpl. rewrite nth_error_app2 by lia. rewrite Nat.sub_diag. reflexivity. }
+  unfold run_is in *. destruct (den nt q [] v) as [ws [[e0|l]|]]; cbn [fst snd] in *; try contradiction.
+  - destruct (peephole_fold_sound nt c Hjin Hlast v f _ Hf) as (f' & Hf'); try (simpl; discriminate). exists f'. exact Hf'.
+  - destruct (peephole_fold_sound nt c Hjin Hlast v f _ Hf) as (f' & Hf'); try (simpl; discriminate). exists f'. exact Hf'.
 Qed.
